@@ -26,7 +26,10 @@ var (
 	rngCalls   int64
 )
 
-var t0 = time.Date(2031, 3, 4, 5, 6, 7, 0, time.UTC)
+// the two wall-clock bases lie on either side of every time a history of the harness can contain (block times start
+// in 2026; plans, gauges and names end within a few years to a century of that)
+var t0 = time.Date(2001, 3, 4, 5, 6, 7, 0, time.UTC)
+var t1 = time.Date(2231, 3, 4, 5, 6, 7, 678000000, time.UTC)
 
 // Reset starts an execution: clock and rng are the two global choices, mapChoices answers map-range points in order.
 func Reset(clockChoice, rngChoice int, maps []int) {
@@ -112,10 +115,14 @@ func Now() time.Time {
 	nowCalls++
 	base := t0
 	if clock == 1 {
-		base = t0.Add(12345*time.Hour + 678*time.Millisecond)
+		base = t1
 	}
 	return base.Add(time.Duration(nowCalls) * 1733 * time.Microsecond)
 }
+
+// Since and Until replace time.Since and time.Until.
+func Since(t time.Time) time.Duration { return Now().Sub(t) }
+func Until(t time.Time) time.Duration { return t.Sub(Now()) }
 
 // NewTMRand returns a generator whose initial seed is an explorer choice; code that re-seeds it is unaffected.
 func NewTMRand() *tmrand.Rand {
